@@ -18,7 +18,7 @@ T = {
  'C02c': ('C02', "separated_by with a multi-token separator that partially matches where the list ends (at_least <= count < at_most): the half-matched separator stays consumed", ""),
  'C02d': ('C02', "x.repeated().at_most(n) (n >= 1, no at_least) used directly as a unit parser (to_slice, ignored, then_ignore) on more than n items: fast path ignores the cap", ""),
  'C03a': ('C03', "Stream over an iterator whose size_hint lower bound is 0, input longer than 512 tokens (batch boundary): end of input reported early", "initially MISSED; caught after long inputs on hint-less streams were added"),
- 'C03c': ('C03', "IoInput only: a sub-parser ran into the real end of input, failed and was backtracked out of, then >= 1 more token was read: end() sees a phantom end of input", ""),
+ 'C03c': ('C03', "IoInput only: a sub-parser ran into the real end of input, failed and was backtracked out of, then >= 1 more token was read: end() sees a phantom end of input", "initially MISSED; caught after the byte-input family (IoInput / Stream<u8> clean accept iff the slice is cleanly accepted) was added to C03"),
  'C03d': ('C03', "Pratt: >= 2 infix operators, operator X followed by a later-declared operator Y then an operand (`1+-2`): the dangling operator's token is consumed by nothing and the input accepted", "same edit as C09c; C03 caught it only after the Pratt family was added"),
  'C04a': ('C04', "x.repeated() without bounds used as a unit parser whose item emits a secondary error and then fails in the final iteration (fast path keeps the emission)", "initially MISSED; caught after emitting items in unit repetitions were added"),
  'C04b': ('C04', "Parser::into_iter() consumed by collect_exactly in Check mode", "initially MISSED; caught by the API sweep"),
@@ -39,7 +39,7 @@ T = {
  'C08a': ('C08', "skip_until with a multi-token `until` whose proper prefix overlaps the real match (no rewind after a failed until probe)", ""),
  'C08b': ('C08', "successful recovery that consumes nothing, next parser failing at the same position, enclosing backtracking combinator (rewind early return)", ""),
  'C08c': ('C08', "nested recovery / emitting validate inside p that succeeds, then p as a whole fails and the outer strategy succeeds: the inner emissions survive (rewind_input instead of rewind)", ""),
- 'C08d': ('C08', "nested_delimiters with >= 2 `others` pairs and a region containing a non-last pair kind", ""),
+ 'C08d': ('C08', "nested_delimiters with >= 2 `others` pairs and a region containing a non-last pair kind", "initially MISSED (the model fixed one `others` pair); caught after the bracket family (0..3 other pairs, varying main pair, independent bracket matcher) was added"),
  'C09a': ('C09', "postfix operator with the same power as a left-associative infix operator, applied to the infix operator's right operand", ""),
  'C09b': ('C09', ">= 2 infix operators, the first one's right operand missing: later operators are tried after the dangling operator", ""),
  'C09c': ('C09', ">= 2 infix operators, the dangling one declared first, input `lhs OP1 OP2 operand`: no rewind after the operand failed", "same as C09b"),
@@ -51,11 +51,11 @@ T = {
  'C11a': ('C11', "the same memoized instance run twice in one parse, first run failing after consuming >= 1 token, a later run starting exactly where the earlier one stopped (failed entry filed under the end position)", ""),
  'C11b': ('C11', "left-recursive grammar whose cycle passes through with_ctx / ignore_with_ctx / then_with_ctx", "initially MISSED; caught after left-recursive shapes through context boundaries were added"),
  'C11c': ('C11', "the same memoized object tried twice at one position (shared through boxed()/Rc/recursive) and failing there while another parser's error is pending at the same or a later position: a table hit discards the pending error", ""),
- 'C11d': ('C11', "adjacent small memoized parsers (array elements of choice), input of >= 5 tokens, an earlier recovered failure: key = address ^ position collides", ""),
+ 'C11d': ('C11', "adjacent small memoized parsers (array elements of choice), input of >= 5 tokens, an earlier recovered failure: key = address ^ position collides", "initially MISSED (static placements ran on inputs <= 4 tokens); caught after adjacent memoized parsers over long inputs were added"),
  'C12a': ('C12', "Recursive::declare/define: a clone taken before define(), all strong handles dropped before parsing (mutually recursive partner)", ""),
  'C12b': ('C12', "Pratt right-associative infix chain of ~10^4+ links (no stack-growth guard on that path)", "initially MISSED; caught after Pratt chain depth shapes were added"),
  'C12c': ('C12', "declare/define parser run in Check mode (check(), to_slice(), ignored(), then_ignore) on deep nesting: stack guard dropped on the Check arm only", ""),
- 'C12d': ('C12', "define() called a second time (panics as before) but the second definition is installed: survive the panic and use the parser / an earlier clone / the mutual partner", ""),
+ 'C12d': ('C12', "define() called a second time (panics as before) but the second definition is installed: survive the panic and use the parser / an earlier clone / the mutual partner", "initially INCONCLUSIVE (the harness itself died in the endless recursion of the installed r := r); caught after the post-define evaluation was guarded"),
  'C13a': ('C13', "recursive() parser used for >= 2 parses through the same value (or clones): an earlier parse leaves a failure memo inside the parser", ""),
  'C13b': ('C13', "regex() parser shared by threads parsing different inputs at the same time, or reused across inputs through a Cache: stale (address, offset) cache", ""),
  'C13c': ('C13', "explicit .clone() of a separated_by parser with asymmetric allow_leading/allow_trailing flags, input with a leading separator", ""),
@@ -66,8 +66,8 @@ T = {
  'C14d': ('C14', "regex pattern that can match the empty string, cursor exactly at the end of input", ""),
  'C15a': ('C15', "configured repetition used as a plain (unit) Parser: to_slice / ignored / then_ignore / as separator", "initially MISSED; caught after configured repetitions as plain parsers were added"),
  'C15b': ('C15', "static bounds + configure() that sets other bounds: merged instead of replaced (at_most(2).configure(exactly(4)))", "initially MISSED; caught after contradictory static bounds overridden by configure were added"),
- 'C15c': ('C15', "a configurable parser configured *by reference* ((&just(..)).configure(..)) run in Check mode: Check::invoke_cfg ignores the configuration", ""),
- 'C15d': ('C15', "repetition configured from context with at_least/at_most that stops on an item failing after it consumed a token (lower bound met): not rewound", ""),
+ 'C15c': ('C15', "a configurable parser configured *by reference* ((&just(..)).configure(..)) run in Check mode: Check::invoke_cfg ignores the configuration", "initially MISSED; caught after the by-reference configure family was added"),
+ 'C15d': ('C15', "repetition configured from context with at_least/at_most that stops on an item failing after it consumed a token (lower bound met): not rewound", "initially MISSED; caught after ranged context-configured repetitions over items that fail after consuming were added"),
  'C16a': ('C16', "inner parser emits a non-fatal error, the same nested parse then fails, and the failure reaches the result", "initially MISSED; caught by the nested-vs-direct metamorphic monitor"),
  'C16b': ('C16', "nested parse fails while an outer alt is pending at the outer position after b", ""),
  'C16c': ('C16', "nested_in run in Check mode with trailing tokens in the inner input after what a matches (end() dropped on the Check arm)", ""),
@@ -78,7 +78,7 @@ T = {
  'C17d': ('C17', "map_err over a multi-token parser failing past its first token + a competing error between its start and the failure (mapped error filed back at the start)", ""),
  'C18a': ('C18', "InputRef::skip() (text::newline's CR branch, or custom parsers using skip) with a non-trivial inspector", "initially MISSED; caught after custom leaves using peek()+skip() were added"),
  'C18b': ('C18', "and_is whose second parser succeeds having consumed fewer tokens than the first (inspector not told about the reposition)", ""),
- 'C18c': ('C18', ".padded() that skips >= 1 whitespace token followed by another token: skip_while feeds the terminating token to the inspector and only restores the cursor", ""),
+ 'C18c': ('C18', ".padded() that skips >= 1 whitespace token followed by another token: skip_while feeds the terminating token to the inspector and only restores the cursor", "initially MISSED (no text parsers in the grammar AST); caught after the model-free API family (observations carry their own position) was added — the same family found the genuine defect fixed in 3a35b3d"),
  'C18d': ('C18', "backtracking over a region in which a secondary error was emitted (recover_with / validate) with a snapshot inspector: slow path of rewind() lost the on_rewind call", ""),
  'C19a': ('C19', "collect_exactly (Emit mode) whose iterator ends cleanly after >= 1 and < N items", ""),
  'C19b': ('C19', "zero-sized output type with a Drop impl in a partially filled fixed-size collection", "initially MISSED; caught after the zero-sized droppable value family was added"),
@@ -86,8 +86,8 @@ T = {
  'C19d': ('C19', "collect_exactly whose iterator *fails* (at_least/exactly not met) after >= 1 stored element: drop_before runs twice", ""),
  'C20a': ('C20', "choice over an empty Vec/slice/array at run time directly under map_err / recover_with / custom inp.parse", "initially MISSED; caught after the empty run-time choice leaf was added"),
  'C20b': ('C20', "skip_then_retry_until around a parser containing another recovery/validate, input on which the retry succeeds with emissions forever", ""),
- 'C20c': ('C20', "Pratt: a run of ~2000+ prefix operators (operand closure no longer goes through the stack-growth guard)", ""),
- 'C20d': ('C20', "into_iter().enumerate() consumed by collect/count/fold in a debug build: NONCONSUMPTION_IS_OK lost, false 'making no progress' panic", ""),
+ 'C20c': ('C20', "Pratt: a run of ~2000+ prefix operators (operand closure no longer goes through the stack-growth guard)", "initially MISSED; caught after the deep part (12 nesting/chain families on 1 MiB-stack threads) was added"),
+ 'C20d': ('C20', "into_iter().enumerate() consumed by collect/count/fold in a debug build: NONCONSUMPTION_IS_OK lost, false 'making no progress' panic", "initially MISSED; caught after the iterable-parser matrix (sources x adapters x drivers) was added"),
 }
 latest = {}
 hist = {}
